@@ -231,11 +231,12 @@ def make_specs(ctx, table, scheds, nrandom, tags, sched_stride, probes_close=Tru
             for si in range((gid * 7) % sched_stride, len(scheds), sched_stride):
                 k += 1
                 specs.append(dict(base, mode="sched", sched=scheds[si], id=f"{gid}:s{si}", seed=si))
-        for r in range(nrandom if ent["len"] < 1000 else max(2, nrandom // 3)):
+        long = ent["len"] >= 1000
+        for r in range(nrandom if not long else max(4, nrandom // 2)):
             k += 1
             steps = 40 + 15 * (r % 5) + (ent["len"] if ent["len"] < 200 else ent["len"] // 3)
             specs.append(dict(base, mode="random", steps=steps, id=f"{gid}:r{r}", seed=ctx.seed * 1000 + gid * 37 + r,
-                              style=(3 - r % 4),
+                              style=((3 + r % 2) if long else (4 - r % 5)),
                               close=(probes_close and ent["close_ok"] and r % 3 == 0)))
     return specs
 
